@@ -48,7 +48,7 @@ RULE = ("k-space tensors (coil,h,w,2), (coil,s,h,w,2), (b,coil,h,w,2), (b,coil,s
         "(all-zero, all-one, random, rank-deficient, expanding); ApplyMaskModule on sample dicts with stale target content (same / other shape / non-tensor), histories of 1-3 applications with new masks, custom key names, unrelated keys; plus a malformed stream (non-broadcastable masks, no complex axis). "
         "non-trivial = at least one sampled and one unsampled position and ≥ 4 k-space entries, or a malformed input that must "
         "be rejected; distinct = distinct protocol line / oracle case key")
-PENDING_FINDINGS: list[str] = []
+PENDING_FINDINGS: list[str] = []   # `acs-mul-mask:inf-outside-acs-gives-nan` (phase 3) was repaired in /repo; Props/C03.acs_mul_pinned_violates
 EXTRA_LEAN_MODULES = ["DirectVerif.Lemmas.C03"]   # helper lemmas: hygiene-checked and axiom-audited too
 
 F32MAX = 3.4028234663852886e38
@@ -228,8 +228,15 @@ class Marker:
         return data if self.ret is None else self.ret
 
 
-def gen_engine_case(rng, specials_unsampled_only=False):
+LADDER = [8, 9, 16, 17, 20, 33]
+
+
+def gen_engine_case(rng, specials_unsampled_only=False, ladder=False):
     b, c, h, w = rng.choice([1, 2]), rng.choice([1, 2, 3]), rng.choice([1, 2, 3, 4]), rng.choice([1, 2, 3, 4])
+    if ladder:                      # one axis from the size ladder, the others tiny
+        dims = [1, rng.choice([1, 2]), rng.choice([1, 2]), rng.choice([1, 2])]
+        dims[rng.randrange(4)] = rng.choice(LADDER)
+        b, c, h, w = dims
     kshape = [b, c, h, w, 2]
     r = rng.random()
     mshape = [b if rng.random() < 0.5 else 1, 1, h, w, 1] if r < 0.7 else ([1, 1, 1, w, 1] if r < 0.85 else [b, c, h, w, 2])
@@ -351,9 +358,16 @@ def correspondence(ctx: Ctx):
 
     rng = ctx.rng
     # ---- apply_mask with a tensor mask (every dtype / broadcastable shape), also through ApplyMaskModule
-    for i in range(ctx.budget(260, 4000)):
+    for i in range(ctx.budget(320, 4500)):
         kkind, kshape = gen_kshape(rng)
+        if i % 5 == 3:                   # size ladder on one axis (8, 9, 16, 17, 20, 33), all other axes <= 2
+            kshape = [rng.choice([1, 2]) for _ in kshape[:-1]] + [2]
+            kshape[rng.randrange(len(kshape) - 1)] = rng.choice(LADDER)
+        elif i % 5 == 4 and i % 3 == 0:  # an empty axis
+            kshape[rng.randrange(len(kshape) - 1)] = 0
         skind, mshape = gen_mask_shape(rng, kshape)
+        if i % 5 == 3:
+            skind = "ladder/" + skind
         dn, pat, m = gen_mask(rng, mshape)
         k = gen_kspace(rng, kshape)
         via_module = rng.random() < 0.25
@@ -362,7 +376,10 @@ def correspondence(ctx: Ctx):
         mk, ms, md = mask_groups(m)
 
         def run(k=k, m=m, via_module=via_module):
-            if via_module:
+            if via_module and k.numel() % 2:
+                from direct.data.mri_transforms import ApplyMask       # the ModuleWrapper form used in configurations
+                out = ApplyMask()({"kspace": k.clone(), "sampling_mask": m})["masked_kspace"]
+            elif via_module:
                 out = ApplyMaskModule()({"kspace": k.clone(), "sampling_mask": m})["masked_kspace"]
             else:
                 out = T.apply_mask(k.clone(), m, return_mask=False)
@@ -532,8 +549,12 @@ def correspondence(ctx: Ctx):
                "nontrivial": bool(ones.any() and (~ones).any()), "bucket": f"pad/{dn}/{pat}/{skind}"}
     # ---- the masked operators of the engines, through recording Fourier operators
     eng = toy_engine()
-    for i in range(ctx.budget(120, 1500)):
-        kshape, m, dn, pat, k, x, S, sup = gen_engine_case(rng)
+    for i in range(ctx.budget(160, 1800)):
+        lad = i % 4 == 3
+        kshape, m, dn, pat, k, x, S, sup = gen_engine_case(rng, ladder=lad)
+        if lad:
+            pat = "ladder/" + pat
+        eng.model.train(rng.random() < 0.5)                  # the operators must not depend on the training mode
         op = rng.choice(["fwd", "bwd", "astar"])
         mk, ms, md = mask_groups(m)
         nontrivial = bool(sup.any() and (~sup).any())
@@ -568,19 +589,140 @@ def correspondence(ctx: Ctx):
         yield {"line": pline(op, mk, ms, md, kshape, enc_vals(k)), "impl": _impl(run), "nontrivial": nontrivial,
                "bucket": f"{op}/{dn}/{pat}"}
     # ---- MRILogLikelihood: the `error` tensor handed to the backward operator
-    for i in range(ctx.budget(80, 1000)):
-        kshape, m, dn, pat, p, x, S, sup = gen_engine_case(rng, specials_unsampled_only=True)
+    for i in range(ctx.budget(100, 1200)):
+        kshape, m, dn, pat, p, x, S, sup = gen_engine_case(rng, specials_unsampled_only=True, ladder=i % 4 == 3)
+        if i % 4 == 3:
+            pat = "ladder/" + pat
         y = gen_kspace(rng, kshape, special_where=~sup)
         s = rng.choice([None, 1, 2, -1, 3])
         mk, ms, md = mask_groups(m)
 
         def run(p=p, y=y, m=m, x=x, S=S, s=s):
             fwd, bwd = Marker(ret=p.clone()), Marker()
-            ll = MRILogLikelihood(fwd, bwd)
+            ll = MRILogLikelihood(fwd, bwd).train(p.shape[1] % 2 == 0)
             ll(x.permute(0, 3, 1, 2), y.clone(), S, m, None if s is None else torch.tensor([float(s)]))
             return ok_vals(bwd.seen[0]) if len(bwd.seen) == 1 and len(fwd.seen) == 1 else "err MarkerCalls"
         yield {"line": pline("loglik", mk, ms, md, kshape, enc_vals(p), kshape, enc_vals(y), [1 if s is None else s]),
                "impl": _impl(run), "nontrivial": bool(sup.any() and (~sup).any()), "bucket": f"loglik/{dn}/{pat}/s={s}"}
+    yield from correspondence_phase3(ctx)
+
+
+def correspondence_phase3(ctx: Ctx):
+    """hard data consistency through the REAL SSL / JSSL `_do_iteration`, the pipeline path CreateSamplingMask -> ApplyMask,
+    the multiplicative ACS sites — each against the Lean model (`sslOutput`, `pipelineMasked`, `acsKspace`)"""
+    from . import c03_ext as X
+
+    rng = ctx.rng
+    # ---- call histories on ONE persistent object (same tensor objects re-used, written in place / through numpy / `.data`,
+    #      freed and re-allocated) against `maskHistory` (Lean: a memoising operator with the complete key = stateless)
+    for i in range(ctx.budget(60, 800)):
+        subject = rng.choice(["apply_mask", "apply_mask-tuple", "ApplyMaskModule", "ApplyMaskModule-same-dict", "ApplyMask-wrapper"])
+        kshape, mshape, mdn, script, snaps = X.gen_history_script(rng)
+        groups = []
+        for mv, kv in snaps:
+            groups += [mshape, mv, kshape, enc_vals(torch.tensor(kv, dtype=torch.float32))]
+
+        def run(subject=subject, a=(kshape, mshape, mdn, script)):
+            outs = X.run_history_script(subject, *a)
+            try:
+                return "ok " + " | ".join(ints(o.shape) + " | " + ints(enc_vals(o)) for o in outs)
+            except Unencodable as e:
+                return "err NaN" if str(e) == "NaN" else "err Unencodable"
+        yield {"line": pline("maskhist", *groups), "impl": _impl(run), "nontrivial": len(snaps) >= 3,
+               "bucket": f"maskhist/{subject}/n={len(snaps)}/" + "+".join(sorted({st[0] for st in script[1:]}))[:60]}
+    # ---- harddc
+    for i in range(ctx.budget(80, 1000)):
+        kind, train, is_ssl, via_image = rng.choice(["ssl", "jssl"]), rng.random() < 0.5, rng.random() < 0.6, rng.random() < 0.4
+        kshape, acquired, inp, tgt, full, pred, pad, pat = X.gen_ssl_case(rng, integer_valued=True)
+        ssl_train = train and (is_ssl if kind == "jssl" else True)
+        m = inp if ssl_train else acquired
+        sup = support(m, kshape)
+        # extremes: anything in the prediction; in the measurement only where it is sampled (it is +0 elsewhere)
+        for t, where in ((pred, None), (full, sup)):
+            flat = t.reshape(-1)
+            cand = list(range(flat.numel())) if where is None else [j for j in range(flat.numel()) if where.reshape(-1)[j]]
+            for _ in range(rng.randint(0, 4)):
+                if cand:
+                    flat[rng.choice(cand)] = rng.choice(SPECIALS)
+        y = torch.where(m == 0, torch.tensor([0.0]), full)
+        groups = [list(m.shape), [int(v) for v in m.reshape(-1).tolist()], kshape, enc_vals(y), kshape, enc_vals(pred)]
+        groups += [[0], [], []] if pad is None else [[1], list(pad.shape), [int(v) for v in pad.reshape(-1).tolist()]]
+        groups += [[1], list(tgt.shape), [int(v) for v in tgt.reshape(-1).tolist()]] if ssl_train else [[0], [], []]
+
+        def run(a=(kind, train, is_ssl, via_image, kshape, acquired, inp, tgt, full, pred, pad)):
+            return ok_vals(X.run_ssl_iteration(*a))
+        yield {"line": pline("harddc", *groups), "impl": _impl(run), "nontrivial": bool(sup.any() and (~sup).any()),
+               "bucket": f"harddc/{kind}/{'train' if train else 'eval'}/ssl={is_ssl}/{'image' if via_image else 'kspace'}/{pat}"
+                         + ("/pad" if pad is not None else "") + (f"/coils={kshape[1]}" if kshape[1] >= 8 else "")}
+    # ---- pipeline: CreateSamplingMask(shape, use_seed, return_acs) [+ padding] -> ApplyMask, with a recording mask function
+    from direct.data import mri_transforms as MT
+
+    for i in range(ctx.budget(80, 1000)):
+        three_d = rng.random() < 0.3
+        c, h, w = rng.choice([1, 2, 3, rng.choice(LADDER)]), rng.choice([2, 3, 4]), rng.choice([2, 3, 5])
+        kshape = [c, rng.choice([1, 2]), h, w, 2] if three_d else [c, h, w, 2]
+        sp = kshape[1:-1]
+        okind = rng.choice(["none", "none", "empty", "full", "with-None", "all-None", "too-long"])
+        opt = {"none": None, "empty": (), "full": tuple(sp), "with-None": tuple(None if j == len(sp) - 1 else n for j, n in enumerate(sp)),
+               "all-None": tuple(None for _ in sp), "too-long": tuple(None for _ in sp) + (None,)}[okind]
+        use_seed, return_acs = rng.random() < 0.7, rng.random() < 0.3
+        fname = rng.choice(["file_1.h5", "a", "vol_00017.h5", "0"])
+        mshape = [1] * (len(kshape) - 3) + [h, w, 1]
+        if three_d and rng.random() < 0.5:
+            mshape[-4] = kshape[-4]
+        mref = torch.tensor([rng.random() < 0.5 for _ in range(int(np.prod(mshape)))]).reshape(mshape)
+        pad = None
+        if rng.random() < 0.5:
+            pad = torch.zeros([1] * (len(kshape) - 3) + [h, w, 1])
+            pad[..., : rng.choice([0, 1]), :] = 1
+            pad[..., w - rng.choice([0, 1]):, :] = 1
+            if rng.random() < 0.3:
+                pad = pad.bool()
+        k = gen_kspace(rng, kshape)
+        groups = [[0] if opt is None else [1], [] if opt is None else [-1 if v is None else v for v in opt], [int(use_seed)],
+                  [ord(ch) for ch in fname], mshape, enc_vals(mref.float())]
+        groups += [[0], [], []] if pad is None else [[1], list(pad.shape), [int(v) for v in pad.reshape(-1).tolist()]]
+        groups += [kshape, enc_vals(k)]
+
+        def run(k=k, opt=opt, use_seed=use_seed, return_acs=return_acs, fname=fname, mref=mref, pad=pad):
+            calls = []
+
+            def mf(shape, seed=None, return_acs=False):
+                calls.append((tuple(int(v) for v in shape), seed, return_acs))
+                return mref.clone()
+            sample = {"kspace": k.clone(), "filename": fname}
+            if pad is not None:
+                sample["padding"] = pad.clone()
+            sample = MT.CreateSamplingMask(mf, shape=opt, use_seed=use_seed, return_acs=return_acs)(sample)
+            sample = MT.ApplyMask()(sample)
+            main = [cl for cl in calls if not cl[2]]
+            if len(main) != 1 or len(calls) != 1 + int(return_acs) or ("acs_mask" in sample) != return_acs:
+                return "err MaskFuncCall"
+            shape, seed, _ = main[0]
+            out, mk = sample["masked_kspace"], sample["sampling_mask"]
+            return ("ok " + ints(out.shape) + " | " + ints(enc_vals(out)) + " | " + ints(mk.shape) + " | " + ints(enc_vals(mk.float()))
+                    + " | " + ints(shape) + " | " + ints([0 if seed is None else 1]) + " | " + ints([] if seed is None else list(seed)))
+        sup = support(mref, kshape)
+        yield {"line": pline("pipeline", *groups), "impl": _impl(run), "nontrivial": bool(sup.any() and (~sup).any()),
+               "bucket": f"pipeline/shape={okind}/seed={use_seed}/acs={return_acs}/pad={'none' if pad is None else str(pad.dtype)[6:]}"
+                         + ("/3d" if three_d else "")}
+    # ---- the ACS sites (formerly `kspace * acs_mask + 0.0`, now apply_mask): the k-space handed to the backward operator
+    for i in range(ctx.budget(60, 600)):
+        which = rng.choice(["sensitivity", "bodycoil"])
+        c, h, w = rng.choice([1, 2, 3, rng.choice(LADDER)]), rng.choice([1, 2, 3]), rng.choice([2, 3, 4, 5])
+        lead = [1] if which == "sensitivity" else []
+        kshape = lead + [c, h, w, 2]
+        acs = torch.zeros(lead + [1, h, w, 1], dtype=torch.bool)
+        lo = rng.randrange(w)
+        acs[..., lo: lo + rng.choice([0, 1, 2]), :] = True
+        k = gen_kspace(rng, kshape)
+        has_nan = bool((torch.isinf(k) & ~acs).any())
+
+        def run(which=which, k=k, acs=acs):
+            return ok_vals(X.acs_kspace(which, k.clone(), acs.clone()))
+        yield {"line": pline("acsmul", list(acs.shape), [int(v) for v in acs.reshape(-1).tolist()], kshape, enc_vals(k)),
+               "impl": _impl(run), "nontrivial": bool(acs.any() and (~acs).any()),
+               "bucket": f"acsmul/{which}/" + ("inf-outside-acs" if has_nan else "finite-outside-acs")}
 
 
 # --------------------------------------------------------------------------------------------------
@@ -809,6 +951,14 @@ def oracle(ctx: Ctx, deep: bool = False):
             yield Violation("masked-operator-raises", f"a masked operator raises {err_name(e)}: {e}", dict(rep, op="raises"))
     # (4b) every data-consistency site under direct/nn on the real blocks
     yield from oracle_nn_blocks(ctx, deep)
+    # (4c) phase 3: dtypes / layouts / size ladders / aliasing; call histories on persistent objects; mask functions, seeds and
+    #      the CreateSamplingMask -> ApplyMask path; hard data consistency of the SSL / JSSL engines; multiplicative ACS sites
+    from . import c03_ext as X
+    yield from X.oracle_functional(ctx, deep)
+    yield from X.oracle_histories(ctx, deep)
+    yield from X.oracle_mask_func(ctx, deep)
+    yield from X.oracle_ssl(ctx, deep)
+    yield from X.oracle_acs(ctx, deep)
     # (5) exhaustive small scope on bit patterns: every value class x every mask value, all four dtypes
     if True:
         vals = torch.tensor([0.0, -0.0, 1.0, -2.5, float("inf"), float("-inf"), F32MAX, -F32MAX, 1e-45, -1e-45, 7.0, -7.0])
@@ -1166,6 +1316,9 @@ def replay(rep: dict) -> bool:
     from direct.nn.rim.rim import MRILogLikelihood
 
     op = rep.get("op")
+    if isinstance(op, str) and op.startswith("x_"):
+        from . import c03_ext as X
+        return X.replay(rep)
     try:
         if op == "nn_block":
             return bool(check_nn_block(rep["block"], rep["seed"], rep.get("train", False), rep.get("coils")))
